@@ -40,6 +40,7 @@ where
     /*@*/ pub open spec fn cfg_ok(&self) -> bool {
     /*@*/     let r0 = self.rst0_(); let i0 = self.ist0_();
     /*@*/     &&& start_ok(r0)
+    /*@*/ /*L*/    &&& r0.lvl <= 1   // the exactness part of the proof lives in the strict view
     /*@*/     &&& inb(self.old_(), (r0.oc as usize)..(r0.oe as usize)) && inb(self.new_(), (r0.nc as usize)..(r0.ne as usize))
     /*@*/     &&& (self.inner().relies() ==> self.inner().rely_rel() == self.rel() && start_ok0(i0)
     /*@*/             && i0.oc == r0.oc && i0.nc == r0.nc && i0.oe == r0.oe && i0.ne == r0.ne && i0.lvl == (if r0.lvl >= 2 { 2int } else { 0int }))
@@ -48,7 +49,7 @@ where
     /*@*/ pub open spec fn done(&self) -> bool {
     /*@*/     let ops = self.ops_(); let r0 = self.rst0_();
     /*@*/     &&& ops_full(self.old_(), self.new_(), ops, self.bcur(), false)
-    /*@*/     &&& (r0.lvl >= 2 ==> ops_full(self.old_(), self.new_(), ops, self.bcur(), true))   // [C11]
+    /*@*/ /*S*/     &&& (r0.lvl >= 2 ==> ops_full(self.old_(), self.new_(), ops, self.bcur(), true))   // [C11]
     /*@*/     &&& esum(ops, ops.len() as int) == self.rst().eqs - r0.eqs
     /*@*/     &&& self.inner().trace() == evs_of(ops) + fin::<D>()   // the inner hook was fresh
     /*@*/     &&& !self.inner().failed()
@@ -212,7 +213,7 @@ where
         /*@*/ let ghost mut k: int = 0;
         /*@*/ proof {
         /*@*/     assert(ops_full(self.old, self.new, ops1, bc, false));
-        /*@*/     assert(r0.lvl >= 2 ==> ops_full(self.old, self.new, ops1, bc, true));   // [C11]
+        /*@*/ /*S*/     assert(r0.lvl >= 2 ==> ops_full(self.old, self.new, ops1, bc, true));   // [C11]
         /*@*/     assert(ops1.take(0) =~= Seq::<DiffOp>::empty());
         /*@*/     assert(evs_of(Seq::<DiffOp>::empty()) =~= Seq::<Ev>::empty());
         /*@*/     lemma_run_empty(irel, i0);
@@ -226,7 +227,8 @@ where
         /*@*/         self.hist@ == pre.hist@, self.rst0@ == pre.rst0@, self.ist0@ == pre.ist0@, self.old == pre.old, self.new == pre.new,
         /*@*/         rel == pre.rel(), r0 == pre.rst0_(), h == pre.hist_(), bc == pre.bcur(), irel == pre.inner().rely_rel(), i0 == pre.ist0_(),
         /*@*/         pre == *vstd::prelude::old(self), pre.inv(), wf(pre.rst()),
-        /*@*/         ops_full(self.old, self.new, ops1, bc, false), r0.lvl >= 2 ==> ops_full(self.old, self.new, ops1, bc, true),
+        /*@*/         ops_full(self.old, self.new, ops1, bc, false),
+        /*@*/ /*S*/         r0.lvl >= 2 ==> ops_full(self.old, self.new, ops1, bc, true),   // [C11]
         /*@*/         esum(ops1, ops1.len() as int) == pre.rst().eqs - r0.eqs,
         /*@*/         self.d.fobs() == pre.inner().fobs(), self.d.config() == pre.inner().config(),
         /*@*/         !self.d.failed(), self.d.relies() == pre.inner().relies(), self.d.rely_rel() == irel, self.d.accepts_replace() == pre.inner().accepts_replace(),
@@ -266,7 +268,7 @@ where
         /*@*/     lemma_run_push(rel, r0, h, e);
         /*@*/     assert(self.hist_().drop_last() =~= h);
         /*@*/     lemma_run_fin::<D>(irel, i0, evs_of(ops1));
-        /*@*/     lemma_sum_mono(ops1, 0, ops1.len() as int);
+        /*@*/     lemma_sums_mono(ops1, 0, ops1.len() as int);
         /*@*/ }
         self.d.finish()
     }
